@@ -1,7 +1,9 @@
 """C14 - fn:path / node.path / etree_iter_paths identify each node uniquely.
 
 Shape E: trees (namespaced and default-namespaced names, repeated names, PI targets {t,t,pi,xml-stylesheet},
-text-comment-text interleavings, lxml document-level siblings) x root kind x library x EVERY node.
+text-comment-text interleavings, lxml document-level siblings, PI targets / element / attribute names that are XPath keywords (64),
+namespace names with quotes, spaces, '&' and non-ASCII characters) x root kind x {no namespaces argument, a namespaces argument with a
+default namespace and extra prefixes} x library x EVERY node.
 Oracle: identity - evaluating the returned path string as an XPath 3.0/3.1 expression against the same root
 must select exactly that node; paths within a tree are pairwise distinct.
 """
@@ -10,6 +12,12 @@ from mc.models import xdm
 from mc.props import C01 as B
 from mc.props import C02
 
+KEYWORDS = ['if', 'for', 'let', 'some', 'every', 'instance', 'cast', 'castable', 'treat', 'div', 'mod', 'idiv', 'and', 'or', 'eq', 'ne', 'lt', 'le', 'gt', 'ge', 'is', 'to',
+            'union', 'intersect', 'except', 'return', 'satisfies', 'in', 'then', 'else', 'of', 'as', 'map', 'array', 'function', 'item', 'node', 'text', 'comment', 'element',
+            'attribute', 'document-node', 'processing-instruction', 'namespace-node', 'schema-element', 'schema-attribute', 'empty-sequence', 'child', 'parent', 'self',
+            'descendant', 'ancestor', 'following', 'preceding', 'namespace', 'typeswitch', 'switch', 'xml-stylesheet', 'Q', 'true', 'false', 'last', 'position', 'path']
+ODD_URIS = ["urn:it's", 'urn:a&b', 'http://x/?a=1#f', 'urn:a(b)', 'urn:a,b;c=d', 'urn:a%20b*c', 'urn:a@c$d+e!f~g']
+NSARGS = [None, {'': G.U0, 'p': G.U1, 'zz': 'urn:zz'}]
 ROOTKINDS = [('hidden', 'elem', None), ('fragment', 'elem', True), ('document', 'doc', None), ('document', 'elem', False)]
 
 
@@ -27,6 +35,13 @@ def special_trees():
     out.append(('ns/same-local', el('a', children=[el('{%s}a' % G.U0, ns=[['p', G.U0]]), el('a'),
                                                     el('{%s}a' % G.U0, ns=[['p', G.U0]])])))
     out.append(('pi/target-equals-element-name', el('a', children=[P('a', 'x'), el('a'), P('a', 'y'), el('a'), C('a')])))
+    # processing-instruction targets (and element / attribute names) that are XPath keywords: the path step
+    # processing-instruction(if)[1] must still parse
+    for kw in KEYWORDS:
+        out.append(('pi/keyword-target/' + kw, el('a', children=[P(kw, 'x'), el(kw if kw != 'a' else 'b', attrs=[[kw, '1']], children=[P(kw, 'y')]), P(kw, 'z')])))
+    # namespace names with characters that need care inside Q{...} and inside string literals
+    for j, uri in enumerate(ODD_URIS):
+        out.append(('ns/odd-uri/%d' % j, el('{%s}a' % uri, ns=[['p', uri]], attrs=[['{%s}k' % uri, 'v']], children=[el('{%s}a' % uri), el('a'), el('{%s}a' % uri)])))
     out.append(('attrs/xml', el('a', attrs=[['{%s}lang' % G.XML_NS, 'en'], ['id', '1']], children=[el('a', attrs=[['id', '2']])])))
     return out
 
@@ -62,17 +77,19 @@ def run_tree(tid, desc, acc, tier):
         if is_doc and lib != 'lxml':
             continue
         mat = G.materialize(desc, lib)
-        for rk, what, frag in ROOTKINDS:
+        for (rk, what, frag), nsarg in [(r, a) for r in ROOTKINDS for a in NSARGS]:
             root_obj = mat.root if what == 'elem' else mat.doc
+            if nsarg is not None:
+                rk = rk + '+namespaces-argument'
             try:
-                ctx0 = XPathContext(root=root_obj, fragment=frag)
+                ctx0 = XPathContext(root=root_obj, fragment=frag, namespaces=nsarg)
             except Exception as e:  # noqa
                 acc.violation('C14|context-raised', tid, {'exception': repr(e)[:100]}, {'tid': tid, 'desc': desc})
                 continue
             root = ctx0.root
             cache = {}
             nodes = list(root.iter())
-            case = {'tid': tid, 'desc': desc, 'lib': lib, 'rk': rk, 'what': what, 'frag': frag}
+            case = {'tid': tid, 'desc': desc, 'lib': lib, 'rk': rk, 'what': what, 'frag': frag, 'namespaces': nsarg}
             kinds = {}
             for n in nodes:
                 kinds[C02.impl_kind(n)] = kinds.get(C02.impl_kind(n), 0) + 1
@@ -89,7 +106,7 @@ def run_tree(tid, desc, acc, tier):
                         c2 = dict(case, ver=ver, source=source, ref=list(ref))
                         try:
                             if source == 'fn:path':
-                                p = B.parser(ver, False).parse('path(.)').evaluate(XPathContext(root=root, item=n, fragment=frag))
+                                p = B.parser(ver, False).parse('path(.)').evaluate(XPathContext(root=root, item=n, fragment=frag, namespaces=nsarg))
                             else:
                                 p = n.path
                             acc.ev()
@@ -112,7 +129,7 @@ def run_tree(tid, desc, acc, tier):
                             seen_paths[p] = ref
                         # evaluate the path back
                         try:
-                            back = list(B.parser(ver, False).parse(p).select(XPathContext(root=root, fragment=frag)))
+                            back = list(B.parser(ver, False).parse(p).select(XPathContext(root=root, fragment=frag, namespaces=nsarg)))
                             acc.ev()
                             got = [B.impl_ref(x, mat, cache) if hasattr(x, 'position') else ('atomic', repr(x)) for x in back]
                         except ElementPathError as e:
@@ -135,7 +152,7 @@ def run_tree(tid, desc, acc, tier):
                             acc.violation('C14|%s|%s|%s|%s' % (source, kind, nk, rk), key,
                                           {'path': p, 'selected': [list(map(str, g)) for g in got]}, c2)
             # etree_iter_paths for every element
-            if what == 'elem' and frag is None:
+            if what == 'elem' and frag is None and nsarg is None:
                 try:
                     pairs = list(etree_iter_paths(mat.root))
                 except Exception as e:  # noqa
